@@ -379,6 +379,9 @@ func rulesC12(w *World, r *Report) {
 
 	// R2 shared maps
 	w.ruleSharedMaps(r, "C12.R2 shared maps written only on a lookup miss")
+	// R5 a result handed to the caller does not alias the instance: once the instance
+	// is back in a pool the next holder's call overwrites what the first caller still holds
+	w.ruleFreshOutput(r, "C12.R5 results do not alias instance memory")
 
 	// R3 concurrency constructs
 	n3 := 0
